@@ -11,7 +11,7 @@ import os
 from harness.strkern import *   # noqa: F401,F403  (harness functions are looked up in this module)
 from harness import strkern
 from vf import rlit
-from vf.stubs import untraced, mod, patched
+from vf.stubs import untraced, bits_index, decode_index, mod, patched
 
 META = {
     'bounds': 'strings: |s| <= 2 (quick) / 3 (thorough) over all non-surrogate Unicode, plus |s| <= 2/3 over a 14-character '
@@ -121,6 +121,20 @@ def _fold_reach_twin_impl(kl, kr, op):
     return texts == []
 
 
+def fold_reach_b(b0: bool, b1: bool, b2: bool, b3: bool, b4: bool, b5: bool, b6: bool, b7: bool, b8: bool, b9: bool, b10: bool, b11: bool) -> bool:
+    """
+    post: _
+    """
+    return untraced(_fold_reach_b_impl, bits_index(b0, b1, b2, b3, b4, b5, b6, b7, b8, b9, b10, b11))
+
+
+def _fold_reach_b_impl(idx):
+    d = decode_index(idx, [14, 14, 13])
+    if d is None:
+        return True
+    return _fold_reach_impl(d[0], d[1], d[2])
+
+
 # --- site inventory -------------------------------------------------------------------------------------------------
 DANGEROUS = {'eval', 'exec', 'compile', '__import__', 'open', 'execfile', 'input'}
 DANGEROUS_ATTR = {('os', 'system'), ('os', 'popen'), ('subprocess', None), ('socket', None), ('pickle', None), ('importlib', None),
@@ -225,7 +239,7 @@ def obligations(tier, seed):
     obs.append(dict(name='C12.fstr_bytes_alpha', fn='fstr_bytes_alpha', timeout=t,
                     shards=[['n <= %d' % n, 'qmask == %d' % qm] for qm in (15, 7, 6, 3, 1, 8)],
                     bounds='|b| <= %d over BYTE_ALPHA, 6 quote subsets' % n))
-    obs.append(dict(name='C12.fold_reach', fn='fold_reach', timeout=t, shards=[['op == %d' % o] for o in range(13)],
+    obs.append(dict(name='C12.fold_reach', fn='fold_reach_b', timeout=t, shards=[['b11 == %s' % a, 'b10 == %s' % b] for a in (True, False) for b in (True, False)],
                     bounds='14 x 14 operand kinds x 13 operators'))
     obs.append(dict(name='C12.fold_reach.twin', fn='fold_reach_twin', timeout=t, shards=[['op == 0']], expect='refuted',
                     bounds='reachability twin'))
